@@ -261,6 +261,21 @@ fn collect_flow_count_flags_from_nodes(nodes: &[Node], targets: &mut BTreeMap<St
             Node::ReturnExpr(e) => {
                 collect_flow_count_flags_from_expr(e, targets);
             }
+            Node::Sequence(sequence) => {
+                for branch in &sequence.branches {
+                    collect_flow_count_flags_from_nodes(branch, targets);
+                }
+            }
+            Node::Divert(divert) | Node::ThreadDivert(divert) => {
+                for arg in &divert.arguments {
+                    collect_flow_count_flags_from_expr(arg, targets);
+                }
+            }
+            Node::TunnelDivert { args, .. } | Node::TunnelOnwardsWithTarget { args, .. } => {
+                for arg in args {
+                    collect_flow_count_flags_from_expr(arg, targets);
+                }
+            }
             Node::VoidCall { args, .. } => {
                 for arg in args {
                     if let Expression::DivertTarget(target) = arg {
